@@ -574,7 +574,18 @@ func (c *FnCtx) evalCall(env *SpecEnv, e *Expr) (Val, error) {
 		if env.isOld && env.alloc != "" {
 			al = env.alloc
 		}
-		return boolVal(sel(al, s)), nil
+		// an allocated object of a tagged static type carries that run-time type
+		typed := "true"
+		if args[0].K == KRef {
+			if pt, ok := args[0].T.Underlying().(*types.Pointer); ok {
+				if tid := c.refTypeID(pt.Elem()); tid != "" {
+					typed = eq("(rtype "+s+")", tid)
+				}
+			} else if _, ok := args[0].T.Underlying().(*types.Map); ok {
+				typed = eq("(rtype "+s+")", c.refTypeID(args[0].T))
+			}
+		}
+		return boolVal(and(sel(al, s), typed)), nil
 	case "base":
 		if err := evalArgs(); err != nil {
 			return Val{}, err
